@@ -47,7 +47,7 @@ macro_rules! parser_stubs {
     };
 }
 
-// @harness id=c15_precedence_two_ops props=C15 tier=quick cap=1800
+// @harness id=c15_precedence_two_ops props=C15 tier=attempt cap=1800
 // @desc Parser::parse_root_expr on the token vector `a op1 b op2 c` for every pair of the 19 binary operator tokens: the tree is Binary(Binary(a,op1,b),op2,c) when prec(op1) >= prec(op2) (left associativity within a level) and Binary(a,op1,Binary(b,op2,c)) otherwise, with the operators mapped to the right AST operator; every node's span runs from its first to its last token and children lie inside their parent
 // @bound 5 tokens + end of file, 19 x 19 operator pairs in one query
 // @funcs Parser::parse_root_expr, Parser::parse_expr, Parser::parse_suffix_expr, Parser::parse_maybe_simple_expr, SpanManager::make_surrounding_span
@@ -106,7 +106,7 @@ fn c15_precedence_two_ops() {
 }
 }
 
-// @harness id=c15_unary_binds_tighter props=C15 tier=quick cap=1800
+// @harness id=c15_unary_binds_tighter props=C15 tier=attempt cap=1800
 // @desc Parser::parse_root_expr on `u a op b` for every unary prefix operator u in {+,-,~,!} and every binary operator: the tree is Binary(Unary(u,a), op, b) - a unary operator binds tighter than any binary operator - with spans [0,2) for the unary node and [0,4) for the root
 // @bound 4 tokens + end of file, 4 x 19 operator combinations
 // @funcs Parser::parse_root_expr, Parser::parse_expr
@@ -159,7 +159,7 @@ fn c15_unary_binds_tighter() {
 }
 }
 
-// @harness id=c15_must_fail props=C15 tier=quick cap=1800 expect=fail
+// @harness id=c15_must_fail props=C15 tier=attempt cap=1800 expect=fail
 // @desc vacuity twin of the parser harnesses
 parser_stubs! {
 #[kani::proof]
